@@ -17,7 +17,10 @@ impl Prop for Since {
     fn gen(u: &mut Unstructured<'_>) -> arbitrary::Result<PairCase> {
         let a = gen::inst(u, 1)?;
         let b = gen::inst_near(u, a, 1)?;
-        Ok(PairCase { a, b, oa: gen::offset(u)?, ob: gen::offset(u)? })
+        let oa = gen::offset(u)?;
+        // both operands in the same zone one time in four
+        let ob = if u.coin(1, 4)? { oa } else { gen::offset(u)? };
+        Ok(PairCase { a, b, oa, ob })
     }
     fn check(c: &PairCase, cx: &mut Cx) -> Verdict {
         if !c.a.valid() || !c.b.valid() || c.oa.abs() > 86_399 || c.ob.abs() > 86_399 {
